@@ -13,6 +13,12 @@
 //        the library AND by the reference writer, both read back through seg-byte reads; the
 //        observation is the bytes around the body only: (header taghdr trailer wirelen (writes))
 //        -- the model computes them from n; all body bytes are judged by the direct oracles
+//   (6 hv ha ((type ts body mut)...) (seg sizes...) (flags...))  HISTORY on one Muxer and one Demuxer:
+//        every WriteTag gets its body in ONE caller buffer that is reused for the next call and,
+//        with mut != 0, scribbled over right after the call returns; the file is then read tag by
+//        tag, every body returned by ReadTag is KEPT (the slice itself), those whose cyclic flag
+//        is non-zero are flipped in place by the caller right after the read; everything is
+//        compared only after the last call.  Observation as kinds 1/2.
 // Observation kinds 1/2: (wire (write sizes...) demux) with demux = (0 (ver hv ha) (tags...) where err)
 // | (1 err) | (2); kind 3: one entry per call until the first error.
 package flv
@@ -134,7 +140,6 @@ func vC09Mux(hv, ha bool, tags []vC09Tag) (wire []byte, writes []int, err error)
 	}()
 	w := &vC09Writer{}
 	m, _ := NewMuxer(w)
-	defer m.Close()
 	if err = m.WriteHeader(hv, ha); err != nil {
 		return
 	}
@@ -142,6 +147,10 @@ func vC09Mux(hv, ha bool, tags []vC09Tag) (wire []byte, writes []int, err error)
 		if err = m.WriteTag(TagType(t.typ), t.ts, t.body); err != nil {
 			return
 		}
+	}
+	// the file is what the writer holds once the muxer is closed
+	if err = m.Close(); err != nil {
+		return
 	}
 	return w.buf.Bytes(), w.writes, nil
 }
@@ -435,6 +444,133 @@ func vC09Run(k *vKit, c vSx) (obs vSx, fo, fd string, nontrivial bool) {
 		k.count("kind", "5-large-body")
 		k.count("body-size", vSizeBucket(n))
 		return vL(vB(hdr), vB(th), vB(tr), vI(len(wire)), vLs(writes)), fo, fd, n >= 1<<16 || c.l[4].u64() >= 1<<24
+	case 6:
+		if len(c.l) != 6 {
+			return vL(vZ(-1)), "", "", false
+		}
+		hv, ha := c.l[1].i64() != 0, c.l[2].i64() != 0
+		var tags []vC09Tag // what the caller means to write (private copies)
+		var muts []bool
+		maxLen := 0
+		for _, t := range c.l[3].l {
+			body := append([]byte{}, vC09Body(t.l[2])...)
+			tags = append(tags, vC09Tag{uint8(t.l[0].u64()), uint32(t.l[1].u64()), body})
+			muts = append(muts, t.l[3].i64() != 0)
+			if len(body) > maxLen {
+				maxLen = len(body)
+			}
+			if t.l[1].u64() >= 1<<24 {
+				nontrivial = true
+			}
+		}
+		sizes, flags := vC09Ints(c.l[4]), vC09Ints(c.l[5])
+		// ---- write history: one muxer, one reused caller buffer
+		w := &vC09Writer{}
+		werr := func() (err error) {
+			defer func() {
+				if x := recover(); x != nil {
+					err = fmt.Errorf("muxer panicked: %v", x)
+				}
+			}()
+			m, _ := NewMuxer(w)
+			if err = m.WriteHeader(hv, ha); err != nil {
+				return
+			}
+			buf := make([]byte, maxLen)
+			for i, t := range tags {
+				n := copy(buf, t.body)
+				if err = m.WriteTag(TagType(t.typ), t.ts, buf[:n]); err != nil {
+					return
+				}
+				if muts[i] {
+					for j := 0; j < n; j++ {
+						buf[j] = ^buf[j]
+					}
+				}
+			}
+			return m.Close()
+		}()
+		if werr != nil {
+			bad("mux-error", werr.Error())
+		}
+		wire := append([]byte{}, w.buf.Bytes()...)
+		var writes []vSx
+		for _, n := range w.writes {
+			writes = append(writes, vI(n))
+		}
+		if ref := vC09Reference(hv, ha, tags); !bytes.Equal(wire, ref) {
+			bad("layout", fmt.Sprintf("after a history of %d WriteTag calls with a reused caller buffer the file (%d bytes) differs from the FLV v1 reference layout (%d bytes)", len(tags), len(wire), len(ref)))
+		}
+		// ---- read history: one demuxer, every returned body kept
+		var res vC09DemuxRes
+		var kept, snaps [][]byte
+		func() {
+			defer func() {
+				if x := recover(); x != nil {
+					res.panicked = true
+				}
+			}()
+			d, _ := NewDemuxer(vC09MkReader(wire, sizes, -1, -1))
+			defer d.Close()
+			var err error
+			if res.ver, res.hv, res.ha, err = d.ReadHeader(); err != nil {
+				res.hdrErr = vC09Code(err)
+				return
+			}
+			for {
+				tt, sz, ts, err := d.ReadTagHeader()
+				if err != nil {
+					res.where, res.end = 0, vC09Code(err)
+					return
+				}
+				body, err := d.ReadTag(sz)
+				if err != nil {
+					res.where, res.end = 1, vC09Code(err)
+					return
+				}
+				if len(flags) > 0 && flags[len(kept)%len(flags)] != 0 {
+					for j := range body {
+						body[j] = ^body[j]
+					}
+				}
+				kept = append(kept, body)
+				snaps = append(snaps, append([]byte{}, body...))
+				res.tags = append(res.tags, vC09Tag{uint8(tt), ts, body})
+			}
+		}()
+		// ---- end of history: compare everything now
+		switch {
+		case res.panicked:
+			bad("no-panic", "demuxer panicked")
+		case res.hdrErr != 0:
+			bad("roundtrip", fmt.Sprintf("header rejected with error %d", res.hdrErr))
+		default:
+			for i := range kept {
+				if !bytes.Equal(kept[i], snaps[i]) {
+					bad("read-result-stable", fmt.Sprintf("the body returned by ReadTag call %d changed during later calls", i))
+				}
+			}
+			want := make([]vC09Tag, len(tags))
+			for i, t := range tags {
+				b := append([]byte{}, t.body...)
+				if len(flags) > 0 && flags[i%len(flags)] != 0 {
+					for j := range b {
+						b[j] = ^b[j]
+					}
+				}
+				want[i] = vC09Tag{t.typ, t.ts, b}
+			}
+			if res.ver != 1 || res.hv != hv || res.ha != ha {
+				bad("roundtrip", fmt.Sprintf("header read back as version %d video %v audio %v", res.ver, res.hv, res.ha))
+			} else if d := vC09SameTags(res.tags, want); d != "" {
+				bad("history-roundtrip", d)
+			} else if res.where != 0 || res.end != 1 {
+				bad("roundtrip", fmt.Sprintf("read loop ended with error %d in call %d", res.end, res.where))
+			}
+		}
+		k.count("kind", "6-history")
+		k.count("history-length", fmt.Sprint(len(tags)))
+		return vL(vB(wire), vLs(writes), res.obs()), fo, fd, nontrivial || len(tags) >= 2
 	case 3:
 		if len(c.l) != 6 {
 			return vL(vZ(-1)), "", "", false
@@ -595,8 +731,45 @@ func vC09WireLen(tags []vSx) int {
 	return n
 }
 
+// history on one muxer / demuxer: 2-6 tags, timestamps that go up and then down across the
+// extension-byte boundary, bodies of different lengths in one reused buffer
+func vC09GenHistory(r *vRng) vSx {
+	n := r.rng(2, 6)
+	var ops []vSx
+	base := r.pickU64(0, 1<<24-2, 1<<32-3, 1<<31, uint64(r.intn(1<<20)))
+	for i := 0; i < n; i++ {
+		var ts uint64
+		switch r.intn(5) {
+		case 0:
+			ts = (base + uint64(i)) & 0xffffffff // rising, maybe across 2^24 / wrapping 2^32
+		case 1:
+			ts = uint64(r.intn(1 << 16)) // back down: extension byte returns to 0
+		case 2:
+			ts = r.pickU64(1<<24, 1<<24-1, 1<<32-1, 0xff000000, 0)
+		default:
+			ts = (base - uint64(3*i)) & 0xffffffff
+		}
+		size := r.pickInt(0, 1, 2, 5, 40, r.intn(300), r.intn(300))
+		var body vSx
+		if r.chance(1, 12) {
+			body = vC09PatBody(r.rng(1000, 5000), r.intn(256))
+		} else {
+			body = vB(r.bytes(size))
+		}
+		ops = append(ops, vL(vI(r.pickInt(8, 9, 18, r.intn(256))), vU(ts), body, vI(r.intn(2))))
+	}
+	var flags []vSx
+	for i := r.intn(4); i > 0; i-- {
+		flags = append(flags, vI(r.intn(2)))
+	}
+	return vL(vZ(6), vI(r.intn(2)), vI(r.intn(2)), vLs(ops), vLs(vC09GenSizes(r)), vLs(flags))
+}
+
 func vC09Gen(r *vRng, k *vKit) vSx {
-	kind := r.pickInt(1, 1, 1, 2, 2, 3)
+	kind := r.pickInt(1, 1, 1, 2, 2, 3, 6, 6)
+	if kind == 6 {
+		return vC09GenHistory(r)
+	}
 	if kind != 3 {
 		tags := vC09GenTags(r, k)
 		cut, fault := -1, -1
